@@ -271,6 +271,26 @@ endmodule
   and tie1 (y, w, 1'b1);
 endmodule
 """, [], "t"
+    # a flop with two outputs, one left unconnected (`.QN()`), and pin names that are suffixes of each other (D / CD, Q / QN)
+    fd = RefBlackBox("fd2", ["CP", "D", "CD"], ["Q", "QN"])
+    yield "flop-with-unconnected-output-pin", """module s (ck, rst, d0, y);
+  input ck, rst, d0;
+  output y;
+  wire q0;
+  fd2 r0 (.CD(rst), .CP(ck), .D(d0), .Q(q0), .QN());
+  buf b0 (y, q0);
+endmodule
+""", [fd], "s"
+    yield "flop-pins-that-are-suffixes-of-each-other", """module s (ck, rst, d0, d1, y, z);
+  input ck, rst, d0, d1;
+  output y, z;
+  wire q0, q1, nq1;
+  fd2 r0 (.QN(), .CD(), .D(d0), .Q(q0), .CP(ck));
+  fd2 r1 (.CD(rst), .D(d1), .CP(ck), .QN(nq1), .Q(q1));
+  and a0 (y, q0, q1);
+  buf b0 (z, nq1);
+endmodule
+""", [fd], "s"
     yield "net-named-tie1-input", """module t (tie1, a, y);
   input tie1, a;
   output y;
@@ -321,13 +341,22 @@ def run(chk):
     texts = list(writer_texts(P)) + list(synthesis_texts())
     for name, text, bbs, mname in texts:
         n += 1
+        defs_before = [(set(b_.input_set), set(b_.output_set)) for b_ in bbs]
         try:
             full = full_parse(P, text, bbs)
         except ParseError as e:
             chk.note(f"{name}: full parser rejects the netlist ({e}); no agreement obligation")
             continue
+        touched = [b_.name for b_, d_ in zip(bbs, defs_before) if (b_.input_set, b_.output_set) != d_]
+        for b_, d_ in zip(bbs, defs_before):
+            b_.input_set, b_.output_set = set(d_[0]), set(d_[1])
         r = P.call(FILE, "fast_parse_verilog_netlist", text, bbs)
-        if r[0] != "return":
+        touched += [b_.name for b_, d_ in zip(bbs, defs_before) if (b_.input_set, b_.output_set) != d_]
+        for b_, d_ in zip(bbs, defs_before):
+            b_.input_set, b_.output_set = set(d_[0]), set(d_[1])
+        if touched:
+            prob = {"problem": "a parser modified the BlackBox definitions it was given (they are shared by every instance and by later parses)", "definitions": touched}
+        elif r[0] != "return":
             prob = {"problem": "fast parser raises", "result": str(r)[:160]}
         else:
             prob = compare(full, r[1])
